@@ -500,16 +500,16 @@ theorem C06_converse_composeinfo (m : ComposeInfoM) (h : ∀ p ∈ m.parts, p.Co
 
 /-! ## F19: the witness (replayed on the real code by the harness) -/
 
-/-- a childless top-level variant whose uid is `None`: `_validate_uid` calls `None.replace` — AttributeError, neither TypeError
-nor ValueError — although `uid` breaks its documented rule -/
-theorem C06_F19_witness :
+/-- F23 (repaired by a `fix:` commit; this theorem used to state `AttributeError`): a childless top-level variant whose uid is
+`None` is now refused with TypeError, because `_validate_uid` asserts the type of `uid` before calling `.replace` -/
+theorem C06_F23_repaired :
     let v : Obj := [(c!"id", .str c!"Server"), (c!"uid", .none), (c!"name", .str c!"Server"), (c!"type", .str c!"variant"),
                     (c!"arches", .list [.str c!"x86_64"])]
     let m : ComposeInfoM := ⟨[], [(c!"id", .str c!"F-1-20200101.0"), (c!"date", .str c!"20200101"), (c!"type", .str c!"production"),
         (c!"respin", .int 0), (c!"label", .none), (c!"final", .bool false)],
       [(c!"name", .str c!"F"), (c!"short", .str c!"F"), (c!"version", .str c!"1"), (c!"type", .str c!"ga"), (c!"is_layered", .bool false),
        (c!"internal", .bool false)], [], [.mk c!"Server" v [] []]⟩
-    (match m.dumps with | .error .attributeError => true | _ => false) = true := by decide +kernel
+    (match m.dumps with | .error .typeError => true | _ => false) = true := by decide +kernel
 
 /-! ## non-vacuity: concrete instances of the hypotheses -/
 
